@@ -696,8 +696,9 @@ def _count_tests(fn_node) -> Optional[Dict[str, int]]:
     return out or None
 
 
-def _split_test(fn_node) -> Optional[Tuple[str, int, int, str]]:
-    """(separator, length, index, value) of ``t = s.split(sep); len(t) != n -> False; t[i] == v``."""
+def _split_test(fn_node, lit=None) -> Optional[Tuple[str, int, int, str]]:
+    """(separator, length, index, value) of ``t = s.split(sep); len(t) != n -> False; t[i] == v``  (v a constant, or
+    str(<constant expression>) evaluated as a literal)."""
     sep = ln = idx = val = None
     for n in ast.walk(fn_node):
         if isinstance(n, ast.Call) and isinstance(n.func, ast.Attribute) and n.func.attr == "split" and n.args:
@@ -710,6 +711,12 @@ def _split_test(fn_node) -> Optional[Tuple[str, int, int, str]]:
             si = C.subscript_const_index(l)
             if si and isinstance(r, ast.Constant) and isinstance(n.ops[0], ast.Eq):
                 idx, val = si[1], r.value
+            elif si and isinstance(n.ops[0], ast.Eq) and isinstance(r, ast.Call) and isinstance(r.func, ast.Name) and r.func.id == "str" and \
+                    len(r.args) == 1 and lit is not None:
+                try:
+                    idx, val = si[1], str(lit(r.args[0]))
+                except Exception:
+                    pass
     if None in (sep, ln, idx, val):
         return None
     return sep, ln, idx, val
@@ -721,7 +728,7 @@ def rule_r5(ctx) -> List[R.Inst]:
     shapes = {}
     for name, pred, owner in (("OsuHit", "is_hit", NOTE_META), ("OsuHold", "is_hold", NOTE_META)):
         ws, n, toks, wfn, wret = writer_slots(ctx, CODECS[name])
-        tests = _count_tests(M.fn(owner + "." + pred).node)
+        tests = _count_tests(M.nfn(owner + "." + pred, subst=True).node)      # (a shared helper of the classifiers is inlined)
         file, line = fn_loc(M, owner + "." + pred)
         if not tests:
             insts.append(R.undec("C01.R5", pred, file, line, "classifier is not a conjunction of count() tests"))
@@ -736,12 +743,13 @@ def rule_r5(ctx) -> List[R.Inst]:
                                 f"written lines are not recognised", construct=f"{pred}: {tests} vs {got}"))
     for name, pred in (("OsuBpm", "is_timing_point"), ("OsuSv", "is_slider_velocity")):
         ws, n, toks, wfn, wret = writer_slots(ctx, CODECS[name])
-        t = _split_test(M.fn(TP_META + "." + pred).node)
+        cfn_ = M.nfn(TP_META + "." + pred)
+        t = _split_test(cfn_.node, lambda e_: M.lit(cfn_.mod, e_, cfn_.cls))
         file, line = fn_loc(M, TP_META + "." + pred)
         if t is None:
             # a classifier that orders a slot's numeric value (sign of the code) instead of testing the flag slot the
             # writers set: the format distinguishes the two line kinds by the 'uninherited' flag, whatever the sign
-            cfn = M.fn(TP_META + "." + pred).node
+            cfn = cfn_.node
             ords = [c for c in ast.walk(cfn) if isinstance(c, ast.Compare) and isinstance(c.ops[0], (ast.Gt, ast.GtE, ast.Lt, ast.LtE))
                     and any(C.subscript_const_index(x) for x in ast.walk(c))]
             if ords:
